@@ -108,7 +108,7 @@ Theorem C19_delay_transparent : forall v c (h : handler) w,
   /\ match snd (h w) with
      | Fail _ _ =>
          mget K_DFOR (m_meta (w_msg (fst r))) = MDur (next_delay v c (mget K_DFOR (m_meta (w_msg (fst (h w))))))
-         /\ mget K_DUNTIL (m_meta (w_msg (fst r))) = MUntil (next_delay v c (mget K_DFOR (m_meta (w_msg (fst (h w))))))
+         /\ mget K_DUNTIL (m_meta (w_msg (fst r))) = (let d := next_delay v c (mget K_DFOR (m_meta (w_msg (fst (h w))))) in MUntil d d)
          /\ (forall k, k <> K_DFOR -> k <> K_DUNTIL ->
              mget k (m_meta (w_msg (fst r))) = mget k (m_meta (w_msg (fst (h w)))))
          /\ m_ctx (w_msg (fst r)) = m_ctx (w_msg (fst (h w)))
